@@ -497,3 +497,47 @@ RULES = [
     r02_6_side_constraints,
     r02_7_complement_pairs,
 ]
+
+
+def r02_8_fork_before_constrain(repo: Repo, rep: Report):
+    """A sibling created by create_branch(ex, ...) copies ex.path: the parent's own branching
+    condition must not have been appended yet (otherwise every sibling inherits it and becomes
+    contradictory, silently losing all alternatives but the first)."""
+    rep.rule("R02.8", "the parent path is constrained with its own branch condition only after all siblings have been forked")
+    n = 0
+    for modname in ("sevm", "cheatcodes"):
+        m = repo.mod(modname)
+        for q, fn in repo.functions(modname):
+            forks = [c for c in body_walk(fn) if isinstance(c, ast.Call) and last_attr(c) == "create_branch"]
+            if not forks:
+                continue
+            aliases = {"ex"}
+            for st in body_walk(fn):
+                if isinstance(st, ast.Assign) and isinstance(st.value, ast.Name) and st.value.id == "ex":
+                    aliases |= {t.id for t in st.targets if isinstance(t, ast.Name)}
+            bad_sites = []
+
+            def tr(node, state, aliases=aliases, bad_sites=bad_sites):
+                out = []
+                if isinstance(node, (ast.FunctionDef, ast.ClassDef)):
+                    return out
+                for c in ast.walk(node):
+                    if not isinstance(c, ast.Call):
+                        continue
+                    if last_attr(c) == "create_branch" and "constrained" in state and c.args and src(c.args[0]) == "ex":
+                        bad_sites.append(c)
+                    d = dotted(c.func)
+                    if d.endswith(".path.append") and d.split(".")[0] in aliases:
+                        br = kwarg(c, "branching")
+                        if br is not None and src(br) == "True":
+                            out.append("constrained")
+                return out
+
+            Flow(tr, calls_raise=False).run(fn.body)
+            n += 1
+            rep.check("R02.8", not bad_sites, m, bad_sites[0] if bad_sites else fn, f"{modname}.{q}: {len(forks)} fork site(s), none after the parent's own branching constraint", "create_branch(ex, ...) after ex.path.append(<branch condition>, branching=True): the sibling inherits the parent's choice and its path condition becomes contradictory")
+    if n < 6:
+        raise AnalysisError(f"R02.8: only {n} forking functions found")
+
+
+RULES.append(r02_8_fork_before_constrain)
